@@ -67,7 +67,18 @@ def build(case):
     if case.get("used"):
         gcheck.junk(s)
     h, w = case["shape"]
-    fr = BoolGridFrame(s, h, w)
+    consts = case.get("consts")  # frame from caller-built arrays: segments at odd positions are Python constants
+    if consts is not None:
+        from cspuz.array import BoolArray2D
+
+        segs = frame_edges(h, w)
+        cells_h, cells_v = [], []
+        for k, (a, y, x, _) in enumerate(segs):
+            v = bool(consts[k]) if k % 2 else s.bool_var()
+            (cells_h if a == "h" else cells_v).append(v)
+        fr = BoolGridFrame(s, h, w, horizontal=BoolArray2D(cells_h, (h + 1, w)), vertical=BoolArray2D(cells_v, (h, w + 1)))
+    else:
+        fr = BoolGridFrame(s, h, w)
     kw = {}
     # "intflags": the same options given as 1 / 0 instead of True / False (truthiness, not identity, is what callers rely on)
     flag = (lambda b: int(b)) if case.get("intflags") else (lambda b: b)
@@ -81,9 +92,33 @@ def build(case):
     return s, evars, passed, cross
 
 
+def run_constframe(part, case, prange=None):
+    """Frames built from caller-supplied arrays in which every second segment is a Python constant (a pre-drawn or
+    forbidden segment): rebuilt for every pattern."""
+    from cspuz.expr import BoolVar
+
+    h, w = case["shape"]
+    segs = frame_edges(h, w)
+    cyc = case["cycle"]
+    key = "crossable[%s,aux,const-frame]" % ("cycle" if cyc else "path")
+    for pattern in gcheck.patterns(len(segs), prange):
+        exp, vis, crs = oracle(h, w, segs, pattern, cyc)
+        try:
+            s, evars, passed, cross = build(dict(case, consts=list(pattern)))
+        except Exception as e:
+            part.violation(key + ":build-raises-" + type(e).__name__, dict(case, pattern=list(pattern)), {"exception": repr(e)[:300]})
+            continue
+        fixes = [gcheck.fix(v, b) for v, b in zip(evars, pattern) if isinstance(v, BoolVar)]
+        gcheck.judge(part, key, case, pattern, exp, s, fixes)
+    part.add("scale", (h, w, cyc, "const-frame"))
+
+
 def run_case(part, case, prange=None):
     from cspuz.expr import BoolExpr, Op
 
+    if case.get("constframe"):
+        run_constframe(part, case, prange)
+        return
     h, w = case["shape"]
     segs = frame_edges(h, w)
     cyc = case["cycle"] or case["api"] == "alias"
@@ -225,6 +260,11 @@ def prepare(tier):
     global _CASES
     base_cases = cases_for(tier)
     used = [dict(c, used=True) for c in base_cases[:: (7 if tier == "quick" else 3)] if _small(c)]
+    for (h, w) in ([(1, 1), (0, 3), (1, 2), (2, 1), (0, 4)] if tier == "quick" else [(1, 1), (0, 3), (3, 0), (1, 2), (2, 1), (0, 4), (1, 3), (3, 1), (2, 2)]):
+        for cycle in (False, True):
+            used.append({"shape": [h, w], "cycle": cycle, "api": "main", "ugp": False, "cfg": False, "constframe": True})
+    # an explicit use_graph_primitive=False must win over a global default of True
+    used += [dict(c, cfg=True) for c in base_cases if c["api"] == "main" and c["ugp"] is False and nseg(c) <= 7]
     used += [dict(c, intflags=True) for c in base_cases if c["api"] == "main" and c["ugp"] != "default" and nseg(c) <= (7 if tier == "quick" else 12) and nseg(c) >= 4]
     _CASES = base_cases + used + scale_cases(tier)
     return _CASES
